@@ -329,6 +329,14 @@ func (g *Gen) buildTx(t *Tape, view map[wire.OutPoint]*genCoin, inBlock []*genCo
 		fz := consensus.MinFrozenPeriod + uint64(t.Int(4))
 		v := minV + int64(t.Int(int(minInt64(avail-minV, 1000))))
 		tx.AddTxOut(wire.NewTxOut(v, stakingScript(hh, fz)))
+		// sometimes a second deposit in the same transaction
+		if avail-v >= minV+2 && t.Bool(30) {
+			h2, _ := g.pickPayee(t, 80)
+			v2 := minV + int64(t.Int(int(minInt64(avail-v-minV, 1000))))
+			tx.AddTxOut(wire.NewTxOut(v2, stakingScript(h2, consensus.MinFrozenPeriod+uint64(t.Int(4)))))
+			v += v2
+			g.W.Stat("gen.two_deposits_in_one_tx")
+		}
 		if avail-v > 0 {
 			addStd(avail - v)
 		}
@@ -348,6 +356,17 @@ func (g *Gen) buildTx(t *Tape, view map[wire.OutPoint]*genCoin, inBlock []*genCo
 		}
 		v := avail/2 + 1
 		tx.AddTxOut(wire.NewTxOut(v, bindingScript(hh, target)))
+		if avail-v > 2000 && t.Bool(30) {
+			// a second binding deposit (distinct target) in the same transaction
+			h2, _ := g.pickPayee(t, 80)
+			t2 := append([]byte(nil), target...)
+			g.nonce++
+			binary.BigEndian.PutUint64(t2[4:], g.nonce)
+			v2 := (avail - v) / 2
+			tx.AddTxOut(wire.NewTxOut(v2, bindingScript(h2, t2)))
+			v += v2
+			g.W.Stat("gen.two_deposits_in_one_tx")
+		}
 		if avail-v > 0 {
 			addStd(avail - v)
 		}
